@@ -20,6 +20,7 @@ namespace plan
     std::map<int, Scope> rule_scope; // per predicate
     size_t order = 0;
     std::vector<int> real_unit;
+    std::vector<std::string> tps; // time-point variables (`tp t0;`): also listed in m.reals, never in a Scope
     // planting: a hidden assignment that (most) generated constraints are made consistent with, so that
     // problems are satisfiable by a small margin (or unsatisfiable by a small margin when unplanted)
     int plant_mode = 1; // 0 none, 1 all statements, 2 most statements
